@@ -8,6 +8,7 @@ N_U == <<85>>
 D7 == <<55>>
 TE(q) == MkCfg(<<MkCmd(N_U, FALSE, FALSE, TRUE, FALSE, <<U8(D5)>>), MkCmd(N_U, FALSE, TRUE, FALSE, TRUE, <<U8(D7)>>)>>, 6, 6, q, FALSE) @@ [ntab |-> 1]
 MCTables == {TE(1), TE(2)}
+MCTablesQ == {TE(2)}
 MCBytes == {65, 84, 85, 10}
 MCBytesT == {65, 84, 85, 63, 10}
 MCCodes == {RET_DATA_OK, RET_OK, RET_NEXT}
